@@ -445,10 +445,13 @@ def rule_first_item(ctx, facts, rule):
         for x in src:
             for v in x.via:
                 if v[0] == "call" and re.search(r"Index(<.*>)?>?::index$", v[1]):
-                    t = fn.term(v[2])
+                    hb = host if (v[2] < len(host.blocks) and host.blocks[v[2]]["term"].get("callee") == v[1]) else fn
+                    if v[2] >= len(hb.blocks):
+                        continue
+                    t = hb.term(v[2])
                     idx0 = idx0 or (len(t["args"]) > 1 and t["args"][1]["k"] == "const" and t["args"][1].get("v") == 0)
         other = [c for c in calls if re.search(r"Iterator>?::(last|nth|rev|skip|max\w*|min\w*)$|slice::<impl \[T\]>::last$|Vec::<T, A>::(pop|last)$", c)]
-        ctx.check((first or idx0) and not other, rule, p, fn.loc(b),
+        ctx.check((first or idx0) and not other, rule, p, host.loc(b),
                   "for a span with several parents the first token item is used (accepted: Iterator::next on a fresh iterator, "
                   "slice::first, index 0)", "via %s" % sorted(c.rsplit('::', 1)[-1] for c in calls)[:8],
                   "item selected through %s" % sorted(calls), extra="first")
